@@ -56,7 +56,7 @@ def generate(rng, tier, index):
             if mixed:
                 ev['kind'] = rng.choice(['rhr', 'rhr', 'rc', 'wr'])
                 if rng.random() < 0.2:
-                    ev['exc'] = rng.choice([1, 2, 3, 4, 6, 0x0A, 0x0B])
+                    ev['exc'] = rng.choice([1, 2, 3, 4, 5, 6, 7, 8, 0x0A, 0x0B])      # every exception code the specification defines
             if rng.random() < 0.15:
                 ev['reissue'] = {'id': 100000 + nid, 'count': 1, 'addr': rng.randrange(0, 60000)}
             events.append(ev)
